@@ -171,7 +171,13 @@ fn make_pool(rng: &mut Rng, lang: &str, size: usize) -> Vec<String> {
                 if rng.chance(1, 2) { (*rng.pick(corpus::EN_EXTRA)).to_string() } else if !native.is_empty() { (*rng.pick(&native)).to_string() } else { (*rng.pick(ecom)).to_string() }
             }
             6..=7 => synth_title(rng, alphabet),
-            _ => match rng.below(10) {
+            _ => match rng.below(12) {
+                10 => {
+                    // a title of 21..90 words: the per-call match vectors start with room for 20
+                    let n = rng.range(21, 90);
+                    (0..n).map(|_| synth_word(rng, alphabet, 1, 5)).collect::<Vec<_>>().join(" ")
+                }
+                11 => long_word(rng, 71, 140),
                 8 => corpus::soup(rng),
                 9 => {
                     let t = (*rng.pick(ecom)).to_string();
